@@ -422,7 +422,14 @@ func (w *World) modelVector(extra ...*Term) ([]ndValue, Result) {
 	for _, e := range w.ndlog {
 		want = append(want, e.terms...)
 	}
-	vals, r := w.sol.ModelWith(want, extra...)
+	var vals []*Term
+	var r Result = Unknown
+	if v, ok := w.ext["prefer"]; ok && len(v.([]*Term)) > 0 {
+		vals, r = w.sol.ModelWith(want, append(append([]*Term{}, extra...), v.([]*Term)...)...)
+	}
+	if r != Sat {
+		vals, r = w.sol.ModelWith(want, extra...)
+	}
 	if r != Sat {
 		return nil, r
 	}
@@ -608,6 +615,7 @@ func (w *World) Explore(h Harness, openFinds map[string]bool) *HarnessResult {
 	// package initialisation (once per world; not undone)
 	w.trailOn = false
 	w.initPackages(fn.Pkg)
+	w.fixRandReader()
 	w.trailOn = true
 	w.decisions = nil
 	if os.Getenv("GOSYM_WATCH") != "" {
@@ -657,7 +665,7 @@ func (w *World) Explore(h Harness, openFinds map[string]bool) *HarnessResult {
 }
 
 func (w *World) runPath(fn *ssa.Function) {
-	main := &Thread{id: 0, w: w, name: "main", wake: make(chan struct{})}
+	main := &Thread{id: 0, w: w, name: "main", wake: make(chan struct{}), started: true}
 	w.threads = append(w.threads, main)
 	w.cur = main
 	defer w.killThreads()
@@ -847,6 +855,9 @@ func describePanic(w *World, r interface{}) string {
 		return p.kind + ": " + p.msg
 	case goPanic:
 		return "panic: " + w.panicString(p.v) + "\n" + p.where
+	}
+	if w.tolerant > 0 {
+		return fmt.Sprintf("%v", r)
 	}
 	return fmt.Sprintf("%v\n%s", r, trimStack(debug.Stack()))
 }
